@@ -100,6 +100,8 @@ def run_one(rng, counters):
     try:
         p, opts = gen_params(rng)
         sim = genome.simulate(rng, tmp, p)
+        if rng.random() < 0.12:
+            opts["read_merging"] = True  # --merge-reads: listed reads are the (merged) reads the solver was given
         ro = {k: v for k, v in opts.items() if k not in ("ped", "reports")}
         if opts["ped"]:
             ro["ped"] = sim.ped
